@@ -68,7 +68,14 @@ fn reopen(p: Pkg) -> Result<Pkg, String> {
 }
 
 struct Out {
-    lines: Vec<J>,
+    sink: std::sync::Arc<std::sync::Mutex<Vec<J>>>,
+}
+impl Out {
+    fn push_line(&mut self, j: J) {
+        if let Ok(mut l) = self.sink.lock() {
+            l.push(j);
+        }
+    }
 }
 
 /// exact accounting at real scale (C08 at the count limit): the saved bytes decoded independently; for every pool
@@ -119,7 +126,7 @@ impl Out {
             Err(_) => "panic",
         };
         if res == "panic" {
-            self.lines.push(json!({"limit": limit, "how": how, "n": n, "res": res, "same": false, "reopen": "skip"}));
+            self.push_line(json!({"limit": limit, "how": how, "n": n, "res": res, "same": false, "reopen": "skip"}));
             return fresh();
         }
         let after = digest(&mut p);
@@ -135,7 +142,7 @@ impl Out {
             Ok(Err(_)) => ("Err", fresh(), false),
             Err(_) => ("panic", fresh(), false),
         };
-        self.lines.push(json!({"limit": limit, "how": how, "n": n, "res": res, "same": same, "reopen": reopen_res}));
+        self.push_line(json!({"limit": limit, "how": how, "n": n, "res": res, "same": same, "reopen": reopen_res}));
         p2
     }
 }
@@ -159,32 +166,47 @@ fn refcount_scenarios(o: &mut Out) {
     p.create_table("D", vec![Column::build("K").primary_key().int32(), Column::build("A").nullable().string(0), Column::build("B").nullable().string(0), Column::build("C").nullable().string(0)]).unwrap();
     let sat: Vec<Vec<Value>> = (0..21845).map(|k| vec![Value::Int(k), Value::Str("sat".into()), Value::Str("sat".into()), Value::Str("sat".into())]).collect();
     p.insert_rows(Insert::into("D").rows(sat)).unwrap();
-    o.lines.push(accounting(&mut p, &med, "65535 cells", "sat"));
+    o.push_line(accounting(&mut p, &med, "65535 cells", "sat"));
     p.insert_rows(Insert::into("D").row(vec![Value::Int(50000), Value::Str("sat".into()), Value::Str("sat".into()), Value::Null])).unwrap();
-    o.lines.push(accounting(&mut p, &med, "65537 cells: a second entry", "sat"));
+    o.push_line(accounting(&mut p, &med, "65537 cells: a second entry", "sat"));
     p.delete_rows(Delete::from("D").with(Expr::col("K").eq(Expr::integer(0)))).unwrap();
-    o.lines.push(accounting(&mut p, &med, "a row of the saturated entry deleted", "sat"));
+    o.push_line(accounting(&mut p, &med, "a row of the saturated entry deleted", "sat"));
     p.update_rows(msi::Update::table("D").set("A", Value::Str("other".into())).with(Expr::col("K").eq(Expr::integer(1)))).unwrap();
-    o.lines.push(accounting(&mut p, &med, "a cell of the saturated entry re-assigned", "sat"));
+    o.push_line(accounting(&mut p, &med, "a cell of the saturated entry re-assigned", "sat"));
     p.update_rows(msi::Update::table("D").set("B", Value::Null).with(Expr::col("K").eq(Expr::integer(50000)))).unwrap();
-    o.lines.push(accounting(&mut p, &med, "a cell of the second entry released", "sat"));
+    o.push_line(accounting(&mut p, &med, "a cell of the second entry released", "sat"));
     p.insert_rows(Insert::into("D").row(vec![Value::Int(50001), Value::Str("sat".into()), Value::Null, Value::Null])).unwrap();
-    o.lines.push(accounting(&mut p, &med, "one more reference after releases", "sat"));
+    o.push_line(accounting(&mut p, &med, "one more reference after releases", "sat"));
     p.drop_table("D").unwrap();
-    o.lines.push(accounting(&mut p, &med, "table dropped", "sat"));
+    o.push_line(accounting(&mut p, &med, "table dropped", "sat"));
 }
 
 pub fn main(args: &Args) -> i32 {
+    // a panic of the library OUTSIDE a measured step (while a scenario is being set up) is data too: the lines recorded so
+    // far are kept and one more line, which the specification rejects, reports it
+    let lines: std::sync::Arc<std::sync::Mutex<Vec<J>>> = Default::default();
+    let sink = lines.clone();
+    let args2 = Args { cmd: args.cmd.clone(), kv: args.kv.clone() };
+    let r = catch_unwind(AssertUnwindSafe(move || run(&args2, sink)));
+    let mut all = lines.lock().map(|l| l.clone()).unwrap_or_default();
+    if r.is_err() {
+        let last = all.last().map(|l| l["how"].as_str().unwrap_or("").to_string()).unwrap_or_default();
+        all.push(json!({"limit": "setup", "how": format!("a library call between the measured steps panicked (after: {})", last), "n": 0, "res": "panic", "same": false, "reopen": "skip"}));
+    }
+    let mut f = std::io::BufWriter::new(std::fs::File::create(args.get("trace").expect("--trace")).expect("trace"));
+    for l in &all {
+        let _ = writeln!(f, "{}", l);
+    }
+    println!("LIMITS {}", json!({"scenarios": all.len()}));
+    0
+}
+
+fn run(args: &Args, sink: std::sync::Arc<std::sync::Mutex<Vec<J>>>) {
     let with_strings = args.get("no-strings").is_none();
-    let mut o = Out { lines: Vec::new() };
+    let mut o = Out { sink };
     if args.get("refcount-only").is_some() {
         refcount_scenarios(&mut o);
-        let mut f = std::io::BufWriter::new(std::fs::File::create(args.get("trace").expect("--trace")).expect("trace"));
-        for l in &o.lines {
-            let _ = writeln!(f, "{}", l);
-        }
-        println!("LIMITS {}", json!({"scenarios": o.lines.len()}));
-        return 0;
+        return;
     }
     // --- columns: 31 / 32 / 33
     for n in [1usize, 31, 32, 33, 40] {
@@ -336,6 +358,21 @@ pub fn main(args: &Args) -> i32 {
         let _ = o.step(p, "strings", "update of one of two users of a string to a new string, pool full", 65536, |p| {
             p.update_rows(msi::Update::table("S").set("V", Value::Str("one more".into())).with(Expr::col("K").eq(Expr::integer(700000))))
         });
+        // a cell re-assigned its own string, of which it is the ONLY user, next to a new string: the entry is released and
+        // taken again by the same statement - it is not room for the new string
+        let mut p = fresh();
+        p.create_table("S", scols()).unwrap();
+        p.create_table("P2", vec![Column::build("K").primary_key().int32(), Column::build("A").nullable().string(0), Column::build("B").nullable().string(0)]).unwrap();
+        p.insert_rows(Insert::into("P2").row(vec![Value::Int(1), Value::Str("Alpha".into()), Value::Null])).unwrap();
+        let used6 = p.verif_snapshot().pool.len() as i32;
+        p.insert_rows(Insert::into("S").rows(srows(0, 65535 - used6))).unwrap();
+        p = o.step(p, "strings", "update re-assigning a cell its own sole-user string plus one new string, pool full", 65536, |p| {
+            p.update_rows(msi::Update::table("P2").set("A", Value::Str("Alpha".into())).set("B", Value::Str("Omega".into())).with(Expr::col("K").eq(Expr::integer(1))))
+        });
+        let _ = p.delete_rows(Delete::from("S").with(Expr::col("K").eq(Expr::integer(5))));
+        let _ = o.step(p, "strings", "the same update with one entry free", 65535, |p| {
+            p.update_rows(msi::Update::table("P2").set("A", Value::Str("Alpha".into())).set("B", Value::Str("Omega".into())).with(Expr::col("K").eq(Expr::integer(1))))
+        });
         // a free entry BEFORE a string that the same statement re-uses: the statement needs one entry for its
         // one new string and exactly one is free (a first-fit allocator that duplicates the re-used string runs out)
         let mut p = fresh();
@@ -353,10 +390,4 @@ pub fn main(args: &Args) -> i32 {
             p.update_rows(msi::Update::table("S").set("V", Value::Str("s060002".into())).with(Expr::col("K").eq(Expr::integer(500001))))
         });
     }
-    let mut f = std::io::BufWriter::new(std::fs::File::create(args.get("trace").expect("--trace")).expect("trace"));
-    for l in &o.lines {
-        let _ = writeln!(f, "{}", l);
-    }
-    println!("LIMITS {}", json!({"scenarios": o.lines.len()}));
-    0
 }
